@@ -123,6 +123,10 @@ impl Prop for P06 {
         for x in arr(&input["opts"]) {
             o.opts.push(x.as_str().unwrap_or("").to_string());
         }
+        // fixed initial arguments of the command: they are part of every command line
+        let ninit = input["init"]["count"].as_u64().unwrap_or(0) as usize;
+        let init: Vec<Vec<u8>> = (0..ninit).map(|k| format!("I{:04}{}", k, "i".repeat((input["init"]["len"].as_u64().unwrap_or(5) as usize).saturating_sub(5))).into_bytes()).collect();
+        o.init = init.clone();
         o.sum_mode = true;
         o.clear_env = true;
         o.env = env_vars(&input["env"]);
@@ -139,13 +143,16 @@ impl Prop for P06 {
         let mut pos = 0usize;
         let mut order_ok = true;
         for s in &r.sums {
-            let n = s["n"].as_u64().unwrap_or(0) as usize;
+            let nall = s["n"].as_u64().unwrap_or(0) as usize;
+            let n = nall.saturating_sub(ninit);
             let end = (pos + n).min(args.len());
-            if pos + n > args.len() || fnv(&args[pos..end]) != s["h"].as_str().unwrap_or("") {
+            let mut whole: Vec<Vec<u8>> = init.clone();
+            whole.extend(args[pos..end].iter().cloned());
+            if nall < ninit || pos + n > args.len() || fnv(&whole) != s["h"].as_str().unwrap_or("") {
                 order_ok = false;
             }
             pos = end;
-            execs.push(json!({"argc": n + 1, "argbytes": s["bytes"].as_u64().unwrap_or(0) as usize + vlen + 1, "maxarg": (s["maxlen"].as_u64().unwrap_or(0) as usize).max(vlen),
+            execs.push(json!({"argc": nall + 1, "argbytes": s["bytes"].as_u64().unwrap_or(0) as usize + vlen + 1, "maxarg": (s["maxlen"].as_u64().unwrap_or(0) as usize).max(vlen),
                               "envc": s["envc"], "envbytes": s["envbytes"], "fname": vlen + 1}));
         }
         let stderr = String::from_utf8_lossy(&r.stderr);
@@ -191,7 +198,10 @@ impl Prop for P06 {
             2 => json!(["-s", "30000000"]),
             _ => json!([]),
         };
-        json!({"mode": "run", "groups": groups, "opts": opts, "env": envs[rng.below(envs.len())], "rlim": *rng.pick(&rlims)})
+        // every third scenario with fixed initial arguments, several KiB of them
+        let init = if scenario % 3 == 1 { *rng.pick(&[(60u64, 100u64), (300, 50), (5, 1000), (40, 400)]) } else { (0, 0) };
+        json!({"mode": "run", "groups": groups, "opts": opts, "env": envs[rng.below(envs.len())], "rlim": *rng.pick(&rlims),
+               "init": {"count": init.0, "len": init.1}})
     }
 
     fn corrupt(&self, obs: &Value) -> Option<Value> {
